@@ -162,7 +162,7 @@ func c10Scenarios(tier string) []engine.Scenario {
 				sc := engine.Scenario{
 					Name:  fmt.Sprintf("whitelist=%v,method=%s,expire=%v", wl, method, useExpire),
 					Depth: depth,
-					Cfg: world.Config{Modules: mods, Whitelist: wl, LogoutMethod: method, EmailAuthRequired: true, ExpireAfter: time.Minute, ProtFail: authboss.RespondNotFound},
+					Cfg:   world.Config{Modules: mods, Whitelist: wl, LogoutMethod: method, EmailAuthRequired: true, ExpireAfter: time.Minute, ProtFail: authboss.RespondNotFound},
 					Init: func(s *world.Stack) *world.World {
 						w := world.NewWorld("B1")
 						flows.SeedAcct(s, w, flows.Acct{PID: U1, Password: P1})
@@ -213,7 +213,7 @@ func c10Scenarios(tier string) []engine.Scenario {
 func init() {
 	engine.Register(&engine.Property{
 		ID: "C10", Level: "model_checking",
-		Rule: "E1 (one browser, all modules, e-mail authorisation on; a second configuration with expire instead of remember) collects every reachable session state; from every distinct state a logout is sent on a clone with each HTTP method, over a grid of whitelists and configured methods; classes = distinct session shapes (key sets) and session kinds reached",
+		Rule:  "E1 (one browser, all modules, e-mail authorisation on; a second configuration with expire instead of remember) collects every reachable session state; from every distinct state a logout is sent on a clone with each HTTP method, over a grid of whitelists and configured methods; classes = distinct session shapes (key sets) and session kinds reached",
 		Units: func(tier string) []engine.Unit { return e1Units(c10Scenarios(tier)) },
 		Need: []string{"kind:logged-in", "kind:half-authed", "kind:logged-in-2fa", "kind:mid-2fa-totp", "kind:mid-2fa-sms", "kind:mid-setup-totp", "kind:mid-setup-sms", "kind:mid-oauth2",
 			"kind:mid-email-verify", "kind:email-authorised", "kind:cookie-only", "kind:app-keys", "logout:configured-method", "logout:other-method"},
